@@ -938,7 +938,7 @@ def gen_dynamic(out):
     cp = find_fun(B, 'create_path')
     binp = if_chain_returns(cp, ('+', ';;'))
     unp = if_chain_returns(cp, ('?', '*'))
-    K = {'ChoicePath': 'KChoice', 'SequencePath': 'KSeq', 'CheckPath': 'KCheck', 'KleeneStarPath': 'KStar'}
+    K = {'ChoicePath': 'PKChoice', 'SequencePath': 'PKSeq', 'CheckPath': 'PKCheck', 'KleeneStarPath': 'PKStar'}
     if set(binp) != {'+', ';;'} or any(args != ['lhs', 'rhs'] for _, args in binp.values()) or set(unp) != {'?', '*'} or any(args != ['arg'] for _, args in unp.values()):
         raise Unsupported('create_path operators')
     src = ast.unparse(cp)
